@@ -98,4 +98,15 @@ ENTRIES = {
             "Scenario family fixed (S1-S9, S10 thorough); 2-3 results per query; results compared as sequences of names. "
             "Open finding C03-F3: overlapping evaluations of one rule query.",
             "DESIGN.md section 3 C03"),
+    "C08": ("exploration",
+            "exhaustive enumeration of written rule trees x all truth valuations of the branch conditions vs a reference ripple-down-rules interpreter",
+            "Every rule tree with <=6 branches (thorough 7) that can be written with nested with-blocks from refinement / "
+            "alternative / next_rule (root with or without its own conclusion) is built through the public API exactly as a "
+            "user writes it; branch i tests its own boolean attribute and the domain holds one object per valuation of all "
+            "conditions, so every combination of branch outcomes occurs for every tree; the inferred (tag, object) multiset "
+            "must equal a direct transcription of the statement. A two-variable variant checks that conclusions are built "
+            "from the binding that triggered them.",
+            "Shapes the statement does not define are excluded (two refinements in one block, next_rule inside a refinement or "
+            "alternative block, an alternative written after a next_rule in the same block).",
+            "DESIGN.md section 3 C08"),
 }
